@@ -97,6 +97,7 @@ fn variants(rng: &mut Rng, k: u32) -> Vec<(&'static str, String)> {
         ("rw-open", format!("echo w{k} 1<>{}", rng.pick(&["f1", "e1"]))),
         ("dup", format!("echo w{k} 2>&1 >f2; echo x{k} >&2 2>>f2")),
         ("status", format!("rc {}; echo \"?=$?\"", rng.pick(&[0u8, 1, 7]))),
+        ("cmd-not-found", format!("nosuch{k}; echo \"?=$?\"; ./e1; echo \"?=$?\"; ./d; echo \"?=$?\"; d/a.txt; echo \"?=$?\"; ./missing/x; echo \"?=$?\"")),
         // the descriptor table itself (a leak on either side shows at once)
         ("fd-table", "fdl".to_string()),
         ("fd-table", "exec 5>|f2 7<e1; fdl; ( fdl ); exec 5>&- 7<&-; fdl".to_string()),
